@@ -19,7 +19,7 @@ structure Inv (cfg : Cfg) (base : Heap) (s : State C) : Prop where
 
 theorem Inv.nodupRhs {cfg : Cfg} {base : Heap} {s : State C} (hi : Inv cfg base s) :
     ((base ++ circBlocks s.circs ++ s.results.flatMap ownedBlocks).map (·.id)).Nodup :=
-  (hi.perm.map (·.id)).nodup_iff.mp hi.wf.unique
+  (hi.perm.map Block.id).nodup_iff.mp hi.wf.unique
 
 /-- every outstanding result is valid on the current heap -/
 theorem Inv.valid {cfg : Cfg} {base : Heap} {s : State C} (hi : Inv cfg base s) {r : CResult}
@@ -44,7 +44,6 @@ theorem removeIds_singleton (h : Heap) (i : Nat) : h.filter (fun x => x.id != i)
   apply List.filter_congr
   intro x _
   by_cases hx : x.id = i <;> simp [hx]
-  exact fun hc => hx hc.symm
 
 /-- removing the ids of `X` from a heap that is `X ++ Y` as a multiset leaves `Y` -/
 theorem perm_remove {L X Y : Heap} (hp : L.Perm (X ++ Y)) (hu : UniqueIds L) :
@@ -52,19 +51,18 @@ theorem perm_remove {L X Y : Heap} (hp : L.Perm (X ++ Y)) (hu : UniqueIds L) :
   unfold removeIds
   have h1 := hp.filter (fun b => !(X.map (·.id)).contains b.id)
   rw [List.filter_append] at h1
-  have hn : ((X ++ Y).map (·.id)).Nodup := (hp.map (·.id)).nodup_iff.mp hu
+  have hn : ((X ++ Y).map Block.id).Nodup := (hp.map Block.id).nodup_iff.mp hu
   rw [List.map_append] at hn
   obtain ⟨_, _, hdis⟩ := List.nodup_append.mp hn
   have hX : X.filter (fun b => !(X.map (·.id)).contains b.id) = [] := by
     apply List.filter_eq_nil_iff.mpr
     intro a ha
-    simp only [Bool.not_eq_true', Bool.not_eq_false, List.contains_iff_mem, List.mem_map]
     simp
     exact ⟨a, ha, rfl⟩
   have hY : Y.filter (fun b => !(X.map (·.id)).contains b.id) = Y := by
     apply List.filter_eq_self.mpr
     intro a ha
-    simp only [Bool.not_eq_true', List.contains_eq_false_iff_not_mem] <;> try simp
+    simp
     intro x hx hc
     exact hdis x.id (List.mem_map.mpr ⟨x, hx, rfl⟩) a.id (List.mem_map.mpr ⟨a, ha, rfl⟩) hc
   rw [hX, hY, List.nil_append] at h1
@@ -129,8 +127,8 @@ theorem inv_finish {cfg : Cfg} {base : Heap} {s : State C} (hi : Inv cfg base s)
       · exact hi.allBlk r' h
 
 theorem inv_new {cfg : Cfg} {base : Heap} {s : State C} (hi : Inv cfg base s) (c : C) (nq nc : Nat) :
-    Inv cfg base { s with hs := (s.hs.alloc cfg.circSize cfg.circAlign).1,
-      circs := (s.hs.next, ⟨c, nq, nc, [], none, ⟨s.hs.next, cfg.circSize, cfg.circAlign⟩⟩) :: s.circs } := by
+    Inv cfg base (⟨(s.hs.alloc cfg.circSize cfg.circAlign).1,
+      (s.hs.next, ⟨c, nq, nc, [], none, ⟨s.hs.next, cfg.circSize, cfg.circAlign⟩⟩) :: s.circs, s.results⟩ : State C) := by
   refine ⟨?_, ?_, ?_, hi.allBlk⟩
   · have := wf_extend hi.wf (new := [⟨s.hs.next, cfg.circSize, cfg.circAlign⟩]) (n' := s.hs.next + 1)
       (by simp) (by intro b hb; rw [List.mem_singleton.mp hb]; simp) (by omega)
@@ -183,8 +181,10 @@ theorem inv_free {cfg : Cfg} {base : Heap} {s : State C} (hi : Inv cfg base s) {
       have hb' := List.mem_filter.mp hb
       exact eq_of_mem_of_id hcbn hb'.1 hin (by simpa [hblk] using hb'.2)
     have hnd : ((circBlocks s.circs).filter (fun b => b.id == id)).Nodup := by
-      have := List.Nodup.sublist (List.Sublist.map (·.id) (List.filter_sublist (p := fun b => b.id == id))) hcbn
-      exact List.Nodup.of_map _ this
+      have := List.Nodup.sublist (List.Sublist.map Block.id (List.filter_sublist (p := fun (b : Block) => b.id == id))) hcbn
+      unfold List.Nodup at this ⊢
+      rw [List.pairwise_map] at this
+      exact this.imp (fun h hc => h (by rw [hc]))
     have hmem' : c.blk ∈ (circBlocks s.circs).filter (fun b => b.id == id) :=
       List.mem_filter.mpr ⟨hin, by simp [hblk]⟩
     cases hl : (circBlocks s.circs).filter (fun b => b.id == id) with
@@ -222,10 +222,213 @@ theorem inv_rfree {cfg : Cfg} {base : Heap} {s : State C} (hi : Inv cfg base s) 
     refine hi.perm.trans ?_
     refine ((List.Perm.refl _).append hp).trans ?_
     rw [← List.append_assoc]
-    refine List.perm_append_comm.trans ?_
-    rw [← List.append_assoc]
     refine (List.perm_append_comm.append (List.Perm.refl _)).trans ?_
     rw [List.append_assoc]
   exact perm_remove hp2 hi.wf.unique
+
+end Q1t.Ffi
+
+namespace Q1t.Ffi
+open CResult
+variable {C : Type}
+
+/-- an outcome keeps the circuit's box -/
+def Out.keeps (o : Out C) (b : Block) : Prop :=
+  match o with
+  | .ret c' _ => c'.blk = b
+  | _ => True
+
+theorem mapRes_keeps (c : Circ C) (r : Res C) (upd : C → Circ C) (tag : Option String)
+    (hupd : ∀ x, (upd x).blk = c.blk) : (mapRes c r upd tag).keeps c.blk := by
+  cases r <;> simp [mapRes, Out.keeps, hupd]
+
+theorem mapStr_keeps (c : Circ C) (r : Res String) (tag : Option String) : (mapStr c r tag).keeps c.blk := by
+  cases r <;> simp [mapStr, Out.keeps]
+
+theorem addGateBody_keeps (cfg : Cfg) (api : Api C) (c : Circ C) (name : Option String) (qs : List Nat)
+    (ps : List CParameter) : (addGateBody cfg api c name qs ps).keeps c.blk := by
+  unfold addGateBody
+  split
+  · simp [Out.keeps]
+  · split
+    · simp [Out.keeps]
+    · split
+      · simp [Out.keeps]
+      · exact mapRes_keeps _ _ _ _ (fun _ => rfl)
+
+theorem addCondBody_keeps (cfg : Cfg) (api : Api C) (c : Circ C) (ctl : List Nat) (t : Nat) (name : Option String)
+    (qs : List Nat) (ps : List CParameter) : (addCondBody cfg api c ctl t name qs ps).keeps c.blk := by
+  unfold addCondBody
+  split
+  · simp [Out.keeps]
+  · split
+    · simp [Out.keeps]
+    · split
+      · simp [Out.keeps]
+      · exact mapRes_keeps _ _ _ _ (fun _ => rfl)
+
+theorem entry_keeps (cfg : Cfg) (api : Api C) (mem : Mem) (c : Circ C) (call : Call) :
+    (entry cfg api mem c call).keeps c.blk := by
+  cases call <;> simp only [entry]
+  case nrQbits => simp [Out.keeps]
+  case nrCbits => simp [Out.keeps]
+  case cstate => split <;> simp [Out.keeps]
+  case addGate h name qbits params =>
+    split
+    · simp [Out.keeps]
+    · exact addGateBody_keeps ..
+  case addCond h control target name qbits params =>
+    split
+    · simp [Out.keeps]
+    · split
+      · simp [Out.keeps]
+      · exact addCondBody_keeps ..
+  case reset => exact mapRes_keeps _ _ _ _ (fun _ => rfl)
+  case resetAll => simp [Out.keeps]
+  case measure =>
+    split
+    · simp [Out.keeps]
+    · split <;> exact mapRes_keeps _ _ _ _ (fun _ => rfl)
+  case measureAll =>
+    split
+    · simp [Out.keeps]
+    · split
+      · simp [Out.keeps]
+      · split <;> exact mapRes_keeps _ _ _ _ (fun _ => rfl)
+  case execute => split <;> simp [Out.keeps]
+  case reexecute => exact mapRes_keeps _ _ _ _ (fun _ => rfl)
+  case histogram => split <;> simp [Out.keeps]
+  case latex => exact mapStr_keeps ..
+  case openQasm => exact mapStr_keeps ..
+  case cQasm => exact mapStr_keeps ..
+  all_goals simp [Out.keeps]
+
+theorem setCirc_blocks {cfg : Cfg} {circs : List (Nat × Circ C)} {id : Nat} {c c' : Circ C}
+    (hk : ∀ kv ∈ circs, kv.2.blk = ⟨kv.1, cfg.circSize, cfg.circAlign⟩)
+    (hc : (id, c) ∈ circs) (hb : c'.blk = c.blk) :
+    circBlocks (setCirc circs id c') = circBlocks circs ∧
+    ∀ kv ∈ setCirc circs id c', kv.2.blk = ⟨kv.1, cfg.circSize, cfg.circAlign⟩ := by
+  have hcb : c'.blk = ⟨id, cfg.circSize, cfg.circAlign⟩ := by rw [hb]; exact hk _ hc
+  constructor
+  · unfold circBlocks setCirc
+    rw [List.map_map]
+    apply List.map_congr_left
+    intro kv hkv
+    obtain ⟨k, v⟩ := kv
+    by_cases hkid : k = id
+    · subst hkid
+      have := hk _ hkv
+      simp only at this
+      simp [hcb, this]
+    · simp [hkid]
+  · intro kv hkv
+    unfold setCirc at hkv
+    obtain ⟨⟨k, v⟩, hin, rfl⟩ := List.mem_map.mp hkv
+    by_cases hkid : k = id
+    · subst hkid
+      simp [hcb]
+    · have : (k == id) = false := by simpa using hkid
+      simp only [this]
+      exact hk _ hin
+
+theorem inv_stepEntry {cfg : Cfg} {base : Heap} {s : State C} (hi : Inv cfg base s) (api : Api C) (mem : Mem)
+    (call : Call) : Inv cfg base (stepEntry cfg api mem s call).1 := by
+  unfold stepEntry
+  split
+  · exact hi
+  · split
+    · exact inv_finish hi _ rfl hi.keyed _
+    · exact hi
+    · exact hi
+  · rename_i id _
+    split
+    · exact hi
+    · rename_i c hg
+      have hk := entry_keeps cfg api mem c call
+      split
+      · exact hi
+      · exact hi
+      · rename_i c' p he
+        rw [he] at hk
+        have hmem := lookup_mem hg
+        obtain ⟨h1, h2⟩ := setCirc_blocks (cfg := cfg) hi.keyed hmem hk
+        exact inv_finish hi _ h1 h2 _
+
+theorem inv_step {cfg : Cfg} {base : Heap} {s : State C} (hi : Inv cfg base s) (api : Api C) (mem : Mem)
+    (call : Call) : Inv cfg base (step cfg api mem s call).1 := by
+  cases call
+  case new nq nc => exact inv_new hi _ nq nc
+  case free h =>
+    cases h with
+    | none => exact hi
+    | some id =>
+      simp only [step]
+      split
+      · exact hi
+      · rename_i c hg
+        split
+        · exact hi
+        · rename_i h' hd
+          exact inv_free hi hg hd
+  case resultFree r =>
+    simp only [step]
+    split
+    · rename_i hr
+      split
+      · exact hi
+      · rename_i h' hf
+        exact inv_rfree hi hr hf
+    · exact hi
+  all_goals exact inv_stepEntry hi api mem _
+
+theorem inv_run {cfg : Cfg} {base : Heap} (api : Api C) :
+    ∀ (hist : List (Mem × Call)) (s : State C), Inv cfg base s → Inv cfg base (run cfg api s hist).1 := by
+  intro hist
+  induction hist with
+  | nil => intro s hi; exact hi
+  | cons mc rest ih =>
+    intro s hi
+    obtain ⟨mem, call⟩ := mc
+    simp only [run]
+    exact ih _ (inv_step hi api mem call)
+
+theorem inv_init {cfg : Cfg} (base : Heap) (next : Nat) (hw : HeapSt.WF ⟨base, next⟩) :
+    Inv cfg base (init C base next) := by
+  refine ⟨hw, ?_, ?_, ?_⟩
+  · simp [init, circBlocks]
+  · intro kv hkv; cases hkv
+  · intro r hr; cases hr
+
+/-- **heap_balanced**, model level: after ANY call history (any interleaving of any entry points on any
+number of circuits, any arguments, any foreign memory), if no circuit is live and no result is
+outstanding any more — i.e. every circuit was freed once and every result was freed once — the live
+heap is the initial heap again (as a multiset of blocks with their layouts). -/
+theorem heap_balanced_model (cfg : Cfg) (api : Api C) (base : Heap) (next : Nat) (hw : HeapSt.WF ⟨base, next⟩)
+    (hist : List (Mem × Call)) :
+    let s := (run cfg api (init C base next) hist).1
+    s.circs = [] → s.results = [] → s.hs.heap.Perm base := by
+  intro s hc hr
+  have hi : Inv cfg base s := inv_run api hist _ (inv_init base next hw)
+  have := hi.perm
+  rw [hc, hr] at this
+  simpa [circBlocks] using this
+
+/-- at any point of any history: the live heap is exactly the initial blocks, the boxes of the live
+circuits and the blocks owned by the outstanding results -/
+theorem heap_accounted (cfg : Cfg) (api : Api C) (base : Heap) (next : Nat) (hw : HeapSt.WF ⟨base, next⟩)
+    (hist : List (Mem × Call)) :
+    let s := (run cfg api (init C base next) hist).1
+    s.hs.heap.Perm (base ++ circBlocks s.circs ++ s.results.flatMap ownedBlocks) :=
+  (inv_run api hist _ (inv_init base next hw)).perm
+
+/-- in a history that follows the protocol, `result_free` never faults: freeing an outstanding result
+always succeeds and releases exactly its blocks -/
+theorem conformant_free_ok (cfg : Cfg) (api : Api C) (base : Heap) (next : Nat) (hw : HeapSt.WF ⟨base, next⟩)
+    (hist : List (Mem × Call)) (r : CResult) :
+    let s := (run cfg api (init C base next) hist).1
+    r ∈ s.results → free s.hs.heap r = .ok (removeIds s.hs.heap ((ownedBlocks r).map (·.id))) := by
+  intro s hr
+  have hi : Inv cfg base s := inv_run api hist _ (inv_init base next hw)
+  exact free_valid hi.wf.unique (hi.valid hr)
 
 end Q1t.Ffi
